@@ -261,6 +261,7 @@ def repeatN {α : Type} (f : α → α) : Nat → α → α
 def chainOp (st : ChainSt) (l g : Nat) (j : Json) : JE ChainSt := do
   match (← J.str j "o") with
   | "tag" => do let t ← J.str j "t"; pure (if st.err.isSome then st else { st with v := st.v ++ "|" ++ t })
+  | "const" => do let t := J.strD j "v" ""; pure (if st.err.isSome then st else { st with v := t })
   | "stamp" => do
     let tag ← J.str j "tag"
     pure <| onCell st l fun s v =>
